@@ -121,6 +121,13 @@ def generate(tier, rng):
                     out.append("DE %s %s" % (key, hexs(plain[:cut])))
             if j % 6 == 5:
                 out.append("DE %s %s" % (key, hexs(plain + bytes([rng.getrandbits(8)]))))
+    # deep nesting (no depth limit is documented: a value nested 300 or 1000 levels deep round-trips like any other)
+    for dpt in (100, 255, 256, 257, 300, 1000):
+        out.append("DE any %s" % hexs(b"\x81" * dpt + b"\x00"))
+        out.append("DE any %s" % hexs(b"\x9f" * dpt + b"\xff" * dpt))
+        out.append("DE any %s" % hexs(b"\xa1\x00" * dpt + b"\x00"))
+        out.append("DE ign %s" % hexs(b"\x81" * dpt + b"\x00" + b"\x01"))
+        out.append("DE seq(seq(i8)) %s" % hexs(b"\x81" * dpt + b"\x00"))
     n_any = 20000 if tier == "thorough" else 600
     for _ in range(n_any):
         b = gen_item(rng, 3)
